@@ -4473,7 +4473,11 @@ class ParseCtx:
 
         # Parse main
         parser_decl = next(self._parse_tree.find_data("parser_decl"))
-        self.ast = self._parse_stmt_seq(parser_decl.children)
+        try:
+            self.ast = self._parse_stmt_seq(parser_decl.children)
+        except RecursionError:
+            # the bound on macro expansion depth is never reached when each expansion is itself deeply nested
+            raise IllegalParseTree("Statements or macro expansions are nested too deeply (macros cannot recurse)", parser_decl) from None
 
         if isinstance(self.ast, ActionSourceNode):
             self.start_actions, self.ast = self.ast.adopt_actions_from()
